@@ -12,9 +12,11 @@ name = pid
 if "--name" in sys.argv:
     name = sys.argv[sys.argv.index("--name") + 1]
 src = f"/tmp/mut/{name}" if os.path.isdir(f"/tmp/mut/{name}") else f"/tmp/mut/{pid}"
+if "--src" in sys.argv:  # e.g. second-round changes delivered under /tmp/mut2/<id>
+    src = sys.argv[sys.argv.index("--src") + 1]
 wt = f"/tmp/cw-{name}"
 out = f"/tmp/cw-{name}-out"
-VER = "/verif"
+VER = os.path.dirname(os.path.dirname(os.path.abspath(__file__)))
 meta = dict(property=pid, name=name, source=src, ran=[])
 
 def run(cmd, **kw):
